@@ -1,4 +1,5 @@
 import ShmVerif.Model.Proto
+import ShmVerif.Model.Mux
 import ShmVerif.Drv.C06
 /-! Line-protocol driver for the two-session protocol model (properties C07, C09, C10). -/
 namespace Drv.C07
@@ -6,7 +7,29 @@ open LB Proto
 
 structure St where
   s : Proto.Sys := { m := Mem.create [] }
+  mux : Mux.Sys := {}
   dead : Bool := false
+
+def mside (x : String) : Mux.Side := if x = "a" then .a else .b
+
+def stNumP (st : PStream) : Nat := st.state.num
+def stNumM (st : Mux.MStream) : Nat := match st.state with | .opened => 0 | .closed => 1 | .half => 2
+
+/-- the observables `Proto` and its message-level abstraction `Mux` must agree on -/
+def obsP (s : Proto.Sys) : List Nat :=
+  [s.a.table.length, s.b.table.length, s.qab.length, s.qba.length, s.kab.length, s.kba.length,
+   (if s.fab then 1 else 0), (if s.fba then 1 else 0)] ++
+  s.a.streams.flatMap (fun st => [st.id, stNumP st, if st.inFallback then 1 else 0]) ++ [9999] ++
+  s.b.streams.flatMap (fun st => [st.id, stNumP st, if st.inFallback then 1 else 0])
+
+def obsM (s : Mux.Sys) : List Nat :=
+  [(s.ends .a).table.length, (s.ends .b).table.length, (s.ch .a).q.length, (s.ch .b).q.length, (s.ch .a).k.length, (s.ch .b).k.length,
+   (if (s.ch .a).flag then 1 else 0), (if (s.ch .b).flag then 1 else 0)] ++
+  (s.ends .a).streams.flatMap (fun st => [st.id, stNumM st, if st.inFb then 1 else 0]) ++ [9999] ++
+  (s.ends .b).streams.flatMap (fun st => [st.id, stNumM st, if st.inFb then 1 else 0])
+
+def muxCheck (d : St) (out : String) : St × String :=
+  if obsP d.s = obsM d.mux then (d, out) else (d, out ++ " MUXDIFF")
 
 def side (x : String) : Side := if x = "a" then .a else .b
 
@@ -45,7 +68,9 @@ def readMore (s : Proto.Sys) (x : Side) (id : Nat) (n : Nat) : Option (Proto.Sys
 
 def panic (d : St) : St × String := ({ d with dead := true }, "panic")
 
-def readerOp (d : St) (x : Side) (id n : Nat) (f : Mem → LBuf → Option (Mem × LBuf × String)) : St × String :=
+def readerOp (d0 : St) (x : Side) (id n : Nat) (f : Mem → LBuf → Option (Mem × LBuf × String)) : St × String :=
+  let movedNow := match (d0.s.me x).find id with | some st => decide (st.recv.len < n) | none => false
+  let d := if movedNow then { d0 with mux := Mux.moved d0.mux (match x with | .a => .a | .b => .b) id } else d0
   match readMore d.s x id n with
   | none => panic d
   | some (s1, .ok) =>
@@ -74,22 +99,26 @@ def step (d : St) (line : String) : St × String :=
   if d.dead then (d, "dead") else
   match Drv.words line with
   | "init" :: qc :: cls =>
-    ({ s := { m := Mem.create (cls.map Drv.C06.parseCls), qcap := Drv.nat! qc, held := cls.map (fun _ => []) } }, "ok")
+    ({ s := { m := Mem.create (cls.map Drv.C06.parseCls), qcap := Drv.nat! qc, held := cls.map (fun _ => []) },
+       mux := { qcap := Drv.nat! qc } }, "ok")
   | ["open", x] =>
     let (s', id) := openStream d.s (side x)
-    ({ d with s := s' }, s!"ok {id}" ++ gsuffix s')
+    muxCheck { d with s := s', mux := (Mux.openStream d.mux (mside x)).1 } (s!"ok {id}" ++ gsuffix s')
   | ["wb", x, id, h] => writerOp d (side x) (Drv.nat! id) (fun m l => l.writeBytes m (Drv.C06.unhex h))
   | ["rsv", x, id, h] => writerOp d (side x) (Drv.nat! id) (fun m l => l.reserve m (Drv.C06.unhex h))
   | ["wbyte", x, id, b] => writerOp d (side x) (Drv.nat! id) (fun m l => l.writeByte m (Drv.nat! b))
   | ["flush", x, id] =>
     let (s', r) := flush d.s (side x) (Drv.nat! id)
-    if r = .panic then panic d else if r = .missing then (d, "missing") else ({ d with s := s' }, resStr r ++ suffix s' (side x) (Drv.nat! id))
+    if r = .panic then panic d else if r = .missing then (d, "missing") else
+    let mux' := if r = .noop then d.mux else (Mux.flush d.mux (mside x) (Drv.nat! id) (decide (r = .fallback))).1
+    muxCheck { d with s := s', mux := mux' } (resStr r ++ suffix s' (side x) (Drv.nat! id))
   | ["close", x, id] =>
     let (s', r) := closeStream d.s (side x) (Drv.nat! id)
-    if r = .missing then (d, "missing") else ({ d with s := s' }, resStr r ++ suffix s' (side x) (Drv.nat! id))
+    if r = .missing then (d, "missing") else
+    muxCheck { d with s := s', mux := (Mux.closeStream d.mux (mside x) (Drv.nat! id)).1 } (resStr r ++ suffix s' (side x) (Drv.nat! id))
   | ["deliver", x] =>
     let (s', r) := deliver d.s (side x)
-    ({ d with s := s' }, resStr r ++ gsuffix s')
+    muxCheck { d with s := s', mux := (Mux.deliver d.mux (mside x)).1 } (resStr r ++ gsuffix s')
   | ["rb", x, id, n] =>
     readerOp d (side x) (Drv.nat! id) (Drv.nat! n) (fun m l => (l.readBytes m (Drv.nat! n)).map (fun (m', l', o) => (m', l', "ok " ++ Drv.C06.hex o)))
   | ["pk", x, id, n] =>
